@@ -139,7 +139,11 @@ def run_obligation_zsym(ob):
         res["harness_error"] = "engine: " + traceback.format_exc()[-1500:]
         status = "error"
     msgs.append("zsym: %s %s" % (status, getattr(eng, "last_error", "")))
-    if res["harness_error"] and (res["cex"] is None or any(f.startswith("HARNESS-EXC") for f in res["cex"]["fails"])):
+    if res["cex"] is not None and any(not f.startswith("HARNESS-EXC") for f in res["cex"]["fails"]):
+        # genuine clause failures were recorded before the harness itself tripped: they go to the replay, which decides
+        res["cex"]["fails"] = [f for f in res["cex"]["fails"] if not f.startswith("HARNESS-EXC")]
+        verdict = "REFUTED"
+    elif res["harness_error"] and (res["cex"] is None or any(f.startswith("HARNESS-EXC") for f in res["cex"]["fails"])):
         verdict = "HARNESS_ERROR"
     elif status == "nondeterministic":
         verdict = "HARNESS_ERROR"
@@ -154,7 +158,8 @@ def run_obligation_zsym(ob):
         verdict = "UNKNOWN"
     st = eng.stats
     return _finish(res, ob, verdict, msgs, t_start, ch_paths=eng.paths, queries=st["queries"], solver_time_s=round(st["solver_time_s"], 3),
-                   smt_sat=st["sat"], smt_unsat=st["unsat"], smt_unknown=st["unknown"], decisions=st["decisions"], concretizations=st["concretizations"])
+                   smt_sat=st["sat"], smt_unsat=st["unsat"], smt_unknown=st["unknown"], decisions=st["decisions"], concretizations=st["concretizations"],
+                   nonlinear_splits=st.get("nonlinear_splits", 0), discarded_prefixes=st.get("discarded_prefixes", 0), solver_disagreements=st.get("solver_disagreements", 0))
 
 
 def run_obligation_crosshair(ob):
